@@ -1,6 +1,7 @@
 package main
 
 import (
+	"go/constant"
 	"fmt"
 	"go/token"
 	"go/types"
@@ -23,6 +24,7 @@ func init() {
 			"R1": "initial wait == time.After(10ms + Duration(rand.Float64()*90ms)) in a select with ctx.Done(); loop test `i <= 3` on a counter starting at 0 with step 1; exactly one call of the acquisition function per iteration; inter-attempt wait == time.After(CalculateBackoff(DefaultBackoffConfig(), i)) in a select with ctx.Done()",
 			"R2": "fn() is under the breaker mutex; unreachable from the edge state==Open && since<cooldown; failures+1 on error; state=Open iff threshold <= failures (non-strict); failures=0 and state=Closed on success",
 			"R4": "in CalculateBackoff every float->integer conversion is applied to a value that depends on math.Pow only through a phi edge on which (value <= MaxBackoff) or (value < MaxBackoff) holds; calls (builtin min, math.Abs, helpers) pass the dependence on (one necessary condition of the numeric clause: no int64 overflow of the unclamped exponential, no NaN)",
+			"R5": "at the float->integer conversion in CalculateBackoff: the converted value is, through its phis, a constant in [0, 2^63) or a value v with a holding literal `K <= v` (K >= 0) among the edge's guards; and the guards at the conversion contain NOT (K <= v) or (v < K) for a constant K <= 2^63",
 			"R3": "invocations = calls of the function parameter / CircuitBreaker.Call(it) in RetryWithBackoff and its single-call-site helpers; path exploration (following helper returns into the caller with the returned constants, under the stated assumption) finds no second invocation after: result nil | IsPermanentError true | ctx.Err() != nil edge | ctx.Done() case of the wait | MaxAttempts-1 <= attempt under 0 < MaxAttempts | MaxAttempts < 0; exactly one bounded wait, CalculateBackoff(cfg.BackoffConfig, counter), on every path between two invocations; counter from 0 step 1",
 		},
 	})
@@ -134,6 +136,72 @@ func backoffClampRule(c *Ctx, rule string) {
 		bad := unclamped(cv.X, 0)
 		c.check(!bad, rule, fmt.Sprintf("float->integer conversion #%d in CalculateBackoff is applied after the MaxBackoff clamp", n), in,
 			"the converted value %s depends on the exponential term without passing a clamp of the form `value <= MaxBackoff` that holds: %v (InitialBackoff * Multiplier^n overflows int64 from n of about 38, and 0 * +Inf is NaN, which passes `!(value > cap)` and the builtin min: negative or absurd waits)", clip(m.Sym.Of(cv.X).String(), 120), bad)
+		// the value that is converted - after the jitter - lies in [0, 2^63): below by a comparison
+		// that HOLDS (so it is not NaN either), above by a test against a constant <= 2^63. The
+		// conversion of a float outside the int64 range is implementation-defined (amd64: MinInt64).
+		const two63 = 9223372036854775808.0
+		constFloat := func(v ssa.Value) (float64, bool) {
+			k, ok := v.(*ssa.Const)
+			if !ok || k.Value == nil {
+				return 0, false
+			}
+			fv, _ := constant.Float64Val(constant.ToFloat(k.Value))
+			return fv, constant.ToFloat(k.Value).Kind() == constant.Float
+		}
+		var nonNeg func(v ssa.Value, lits []Lit, depth int) bool
+		nonNeg = func(v ssa.Value, lits []Lit, depth int) bool {
+			if depth > 6 {
+				return false
+			}
+			if fv, ok := constFloat(v); ok {
+				return fv >= 0 && fv < two63
+			}
+			for _, l := range lits {
+				// 0 <= v, holding
+				if l.Truth && l.S.Op == "bin" && l.S.Name == "<=" && l.S.Args[1].V == v {
+					if fv, ok := constFloat(l.S.Args[0].V); ok && fv >= 0 {
+						return true
+					}
+				}
+			}
+			if ph, ok := v.(*ssa.Phi); ok {
+				for i, e := range ph.Edges {
+					pred := ph.Block().Preds[i]
+					succIdx := 0
+					for j, sx := range pred.Succs {
+						if sx == ph.Block() {
+							succIdx = j
+						}
+					}
+					if !nonNeg(e, m.EdgeLits(pred, succIdx), depth+1) {
+						return false
+					}
+				}
+				return true
+			}
+			return false
+		}
+		gsCv := m.GuardsAt(in)
+		lower := nonNeg(cv.X, gsCv, 0)
+		upper := false
+		for _, l := range gsCv {
+			if l.S.Op != "bin" {
+				continue
+			}
+			// NOT (K <= v)  or  (v < K), K <= 2^63
+			if !l.Truth && l.S.Name == "<=" && l.S.Args[1].V == cv.X {
+				if fv, ok := constFloat(l.S.Args[0].V); ok && fv <= two63 {
+					upper = true
+				}
+			}
+			if l.Truth && l.S.Name == "<" && l.S.Args[0].V == cv.X {
+				if fv, ok := constFloat(l.S.Args[1].V); ok && fv <= two63 {
+					upper = true
+				}
+			}
+		}
+		c.check(lower && upper, "R5", fmt.Sprintf("float->integer conversion #%d in CalculateBackoff is applied to a value in [0, 2^63)", n), in,
+			"converted value %s: at least 0 by a comparison that holds on every path (so not NaN): %v; below 2^63 by a test against a constant: %v. The jitter is added AFTER the MaxBackoff clamp: with MaxBackoff near the largest duration the sum exceeds 2^63, a NaN or infinite Jitter makes it NaN, a negative InitialBackoff makes it negative - each converts to a negative wait.", clip(m.Sym.Of(cv.X).String(), 100), lower, upper)
 	})
 	if n == 0 {
 		c.undecided(rule, "conversion to Duration", firstInstr(f), "no float->integer conversion found in CalculateBackoff")
